@@ -291,9 +291,11 @@ def check(ctx):
         bm_meta.append((z1, z2))
     wreq_elems, wmeta = [], []
     for _ in range(200 if ctx.tier == "quick" else 3000):
-        e = [g.r.uniform(0, 5), g.r.uniform(0.1, 3), g.choice([0.0, 1e-4, 1e-3, 1e-2]), g.choice([0.25, 1.0, 3.0, 10.0])]
+        e = [g.choice([g.r.uniform(0, 5), g.r.uniform(0, 5), math.inf, 1e200]), g.r.uniform(0.1, 3), g.choice([0.0, 1e-4, 1e-3, 1e-2, -0.0]),
+             g.choice([0.25, 1.0, 3.0, 10.0])]
         got = float(fnl.ww_width(torch.tensor(e[0], dtype=torch.float64), torch.tensor(e[1], dtype=torch.float64), e[2], e[3]))
-        exp = (3 * e[2] * e[0] ** 2 * e[1] / (2 * e[3])) ** (1 / 3)
+        # no cost, no band - also where gamma is infinite (documented: the strategy is then the Black-Scholes delta hedge)
+        exp = 0.0 if e[2] == 0 else (math.inf if e[0] >= 1e150 else (3 * e[2] * e[0] ** 2 * e[1] / (2 * e[3])) ** (1 / 3))
         ctx.case({"ww_width": e}, e[2] > 0, tag="ww_width")
         ctx.traces += 1
         if not close(got, exp):
